@@ -301,6 +301,7 @@ def _fmttables_rule(chk, prog):
         chk.violation(rule, "pp.c", "scanformat", "rewrite:%s" % "".join(sorted(rows ^ rewritten)), tu.file,
                       "format_mappings[] has rows for %s but scanformat rewrites %s: the letters %s are passed to snprintf unchanged "
                       "(or have no mapping to rewrite to)" % ("".join(sorted(rows)), "".join(sorted(rewritten)), "".join(sorted(rows ^ rewritten))))
+    overflow_checks = {}
     for fname in ("janet_formatbv", "janet_buffer_format"):
         fn = tu.funcs.get(fname)
         if fn is None:
@@ -310,6 +311,14 @@ def _fmttables_rule(chk, prog):
         for x in fn.nodes:
             if x.k == "case" and x.kids and x.kids[0].v is not None and 32 < x.kids[0].v < 127:
                 cases.add(chr(x.kids[0].v))
+        # the overflow test after snprintf: same relation and bound in both copies
+        ovf = None
+        for x in fn.nodes:
+            if x.k == "if" and strip_casts(x.kids[0]).k == "bin" and is_ref(strip_casts(strip_casts(x.kids[0]).kids[0]), "nb") \
+                    and any(y.k == "str" and "overflow" in (y.d.get("s") or "") for y in x.kids[1].walk()):
+                c = strip_casts(x.kids[0])
+                ovf = (c.op, strip_casts(c.kids[1]).v, x)
+        overflow_checks[fname] = ovf
         chk.instance(rule)
         missing = sorted(rows - cases)
         if missing:
@@ -317,6 +326,21 @@ def _fmttables_rule(chk, prog):
                           "%s has no case for the integer conversion(s) %s that format_mappings[] defines" % (fname, "".join(missing)))
         else:
             chk.ok(rule, "%s handles every mapped integer conversion" % fname)
+    chk.instance(rule)
+    a, b = overflow_checks.get("janet_formatbv"), overflow_checks.get("janet_buffer_format")
+    if a is None or b is None:
+        raise AnalysisBroken("format item overflow test (nb vs MAX_ITEM) not found in both formatters")
+    item = prog.macros.get("MAX_ITEM")
+    cap = int(item["body"]) if item and item["body"].strip().isdigit() else None
+    good = a[:2] == b[:2] and a[0] == ">=" and (cap is None or a[1] == cap)
+    if good:
+        chk.ok(rule, "both formatters reject an item whose length reaches MAX_ITEM (nb >= %s)" % a[1])
+    else:
+        w = b[2] if (a[0] == ">=" and (cap is None or a[1] == cap)) else a[2]
+        chk.violation(rule, "pp.c", w.fn.name if hasattr(w, "fn") else "formatter", "overflow-test", w.loc,
+                      "the two formatters test the rendered item length differently (janet_formatbv: nb %s %s, janet_buffer_format: "
+                      "nb %s %s; item buffer MAX_ITEM = %s): snprintf returning MAX_ITEM means the last character was cut, so the test "
+                      "must be `nb >= MAX_ITEM`" % (a[0], a[1], b[0], b[1], cap))
 
 
 def run(chk):
